@@ -389,4 +389,24 @@ def pipelineChecks (P : Prims) (dns : Str → Lookup) (arrive : Str → Nat)
     (hdr : List FieldParse) (cs : List CheckRes) (rnd : Nat) (flagged : Bool) : Reply :=
   pipelineBody P dns arrive hdr (mergedResults cs) rnd (mergedQuarantine flagged cs)
 
+/-! ### Delivery through routing blocks (`deliver_to &local_routing`)
+
+The target of the pipeline that evaluates DMARC may be another `MsgPipeline`; it shares the
+`MsgMetadata` of the message, and its own `applyResults` (no `doDMARC`) runs after the outer one,
+before the storage target sees the message.  `applyResults` only ever SETS `msgMeta.Quarantine`
+(`if cr.mergedRes.Quarantine { cr.msgMeta.Quarantine = true }`): a routing block whose checks have
+nothing to quarantine leaves the flag as it found it.  A refusal of the outer pipeline ends the
+transaction before the inner `applyResults` matters. -/
+
+/-- `applyResults` of a pipeline without `doDMARC`, run on a message the outer pipeline has already
+decided on; `mergedQ` is that pipeline's `mergedRes.Quarantine`. -/
+def applyResultsRouting (mergedQ : Bool) : Reply → Reply
+  | .accept q => .accept (q || mergedQ)
+  | r => r
+
+/-- The message passes the routing blocks `hops` (outermost first; per block: do its own checks
+flag the message). -/
+def routed (hops : List Bool) (r : Reply) : Reply :=
+  hops.foldl (fun r h => applyResultsRouting h r) r
+
 end MaddyVerif.Dmarc
